@@ -2,6 +2,7 @@ from typing import Dict, List
 
 import numpy as np
 
+from classy_blocks.construct.edges import Project
 from classy_blocks.construct.flat.face import Face
 from classy_blocks.construct.flat.sketches.disk import QuarterDisk
 from classy_blocks.construct.operations.loft import Loft
@@ -186,6 +187,21 @@ class EighthSphere(Shape):
     @property
     def center(self):
         return self.center_point
+
+    def copy(self):
+        """The blocks are projected to this sphere's own geometry entry,
+        which is named after the object: a copy must refer to its own"""
+        new = super().copy()
+        old_label, new_label = self.geometry_label, new.geometry_label
+
+        for operation in new.operations:
+            operation.side_projects = [new_label if label == old_label else label for label in operation.side_projects]
+
+            for edge in [*operation.bottom_face.edges, *operation.top_face.edges, *operation.side_edges]:
+                if isinstance(edge, Project):
+                    edge.label = [new_label if label == old_label else label for label in edge.label]
+
+        return new
 
     @property
     def geometry(self):
